@@ -317,7 +317,12 @@ class Replayer:
     def __init__(self):
         self.heap = {}
         self.expect = {}
+        self.flags = {}
         self.calls = 0
+        self.counters = {}
+
+    def count(self, name, n=1):
+        self.counters[name] = self.counters.get(name, 0) + n
 
     def context(self, st):
         """Plain facts about a step, used for known-finding signatures and coverage accounting."""
@@ -342,24 +347,32 @@ class Replayer:
 
     def run(self, behaviour):
         """Returns None if the behaviour conforms, else a dict describing the first mismatch."""
-        self.heap, self.expect = {}, {}
+        self.heap, self.expect, self.flags = {}, {}, {}
         for si, st in enumerate(behaviour):
             ctx = self.context(st)
             try:
                 fn = BINDINGS[st["act"]]
+                exp_raise = st["a"].get("raises")
                 try:
                     new, ret = fn(self, st)
                     self.calls += 1
                 except Mismatch:
                     raise
-                except Exception as e:  # the code raised where the specification defines a result
-                    raise Mismatch("raises", f"{type(e).__name__}: {e}"[:400], "no exception",
+                except Exception as e:
+                    self.calls += 1
+                    if exp_raise and type(e).__name__ == exp_raise:
+                        continue  # the documented refusal
+                    # the code raised where the specification defines a result
+                    raise Mismatch("raises", f"{type(e).__name__}: {e}"[:400], exp_raise or "no exception",
                                    "exception in a call the specification enables")
+                if exp_raise:
+                    raise Mismatch("raises", "no exception", exp_raise, "documented refusal did not happen")
                 if st["id"]:
                     if new is None:
                         raise Mismatch("result", None, "object", "call returned no object")
                     self.heap[st["id"]] = new
                     self.expect[st["id"]] = st["o"]
+                    self.flags[st["id"]] = {"exact": bool(st["a"].get("exact"))}
                     check_object(new, st["o"], "result")
                 if st["mid"]:
                     self.expect[st["mid"]] = st["mo"]
@@ -381,3 +394,6 @@ class Replayer:
                         "observed": to_jsonable(m.observed), "expected": to_jsonable(m.expected),
                         "ctx": {"act": "FinalSweep", "cls_i": self.expect[oid]["cls"]}}
         return None
+
+
+from . import bindings_cond  # noqa: E402,F401  (registers the density / conditional bindings)
